@@ -43,6 +43,7 @@ contract("monkeytype.typing:shrink_typed_dict_types", props=["C04", "C05", "C06"
 contract("monkeytype.typing:shrink_types", props=["C04", "C05", "C06", "C01"], theories=TH,
          params={"types": "Seq[Ty]", "max_typed_dict_size": "Opt[int]"}, result="Ty", scc="shrink", decreases=["mdepth(types)", "1"],
          requires={"wf": "forall(types, lambda t: wf_rw(t) and t is not ELLIPSIS_)"},
+         hints={"rewritten-wf": "forall(L_all_dict_types, lambda t: wf_rw(t) and t is not ELLIPSIS_)"},
          ensures={"post:super": _SUP, "post:wf": "wf_rw(result) and result is not ELLIPSIS_",
                   "post:empty": "implies(len(types) == 0, result is ANY)"},
          # C05: the literal Any is produced only for the empty input
@@ -60,7 +61,8 @@ contract("monkeytype.typing:get_dict_type", props=["C04", "C05", "C06", "C03"], 
                   "post:td-size": "implies(kind(result) is K_TD, len(dct) > 0 and (max_typed_dict_size is None or len(dct) <= max_typed_dict_size)"
                                   " and len(td_opt(result)) == 0 and forall(dct, lambda k: is_strval(k) and has(td_req(result), k)) and forall(td_req(result), lambda k: has(dct, k)))",
                   "post:td-disabled": "implies(max_typed_dict_size is not None and max_typed_dict_size <= 0, kind(result) is not K_TD)",
-                  "post:empty-dict": "implies(len(dct) == 0, result is Dict_(ANY, ANY))"},
+                  "post:empty-dict": "implies(len(dct) == 0, result is Dict_(ANY, ANY))",
+                  "post:kind": "kind(result) is K_Dict or kind(result) is K_TD"},
          any_only_if="len(dct) == 0")
 
 contract("monkeytype.typing:get_type", props=["C04", "C05", "C06", "C02", "C03", "C01"], theories=TH,
